@@ -13,6 +13,7 @@
 (*   "kill"   send GoAway, then wait for Deleted                           *)
 (* Go's select chooses at random among ready cases: both are enabled.      *)
 (* Dev "want_bare_recv": the shipped Request waits with a bare receive.    *)
+(* Dev "kill_waits_done": Kill returns when Done is closed (too early).    *)
 (***************************************************************************)
 EXTENDS Integers, Sequences, FiniteSets, TLC
 
@@ -78,7 +79,7 @@ Exit ==
 
 \* Kill waits for Deleted
 KillDone(c) ==
-  /\ pc[c] = "sent" /\ Shape[c] = "kill" /\ Deleted
+  /\ pc[c] = "sent" /\ Shape[c] = "kill" /\ (IF "kill_waits_done" \in Dev THEN DoneClosed ELSE Deleted)
   /\ Return(c, "ok")
   /\ UNCHANGED <<loop, q, handling, listed, memory>>
 
@@ -92,6 +93,9 @@ Spec == Init /\ [][Next]_vars /\ Fairness
 Returns == \A c \in Callers : <>(pc[c] = "returned")
 \* once Deleted is closed the torrent is unlisted and its memory released
 AfterDeleted == Deleted => ~listed /\ ~memory
+\* a Kill that has returned successfully leaves nothing behind, however long the store takes to
+\* release (it waits for a piece that is being hashed)
+KillIsComplete == \A c \in Callers : (Shape[c] = "kill" /\ res[c] = "ok") => ~listed /\ ~memory
 \* the loop never waits for a caller that has gone away
 LoopNeverStuck == [](handling # "-" => <>(handling = "-"))
 =============================================================================
